@@ -358,6 +358,7 @@ def _eval_level(prog, provided, *, path, fail, responses, top_levels, stop) -> R
     decided: dict[str, bool] = {}  # node name -> ran?
     gate_dec: dict[str, Any] = {}  # gate node name -> decision (only if ran)
     fallback_on_edge: set[str] = set()  # node names that may run early on a fallback
+    failed_nodes: set[str] = set()
     stopped_at: int | None = stop  # level at which a failure/pause stops the run
 
     def deps(ns):
@@ -395,7 +396,7 @@ def _eval_level(prog, provided, *, path, fail, responses, top_levels, stop) -> R
                     if decision_names(gate_dec[gname], me):
                         activated = True
                         lvl = max(lvl, R.level[gname] + 1)
-                elif g.get("open", True):
+                elif g.get("open", True) and gname not in failed_nodes:
                     # a gate that never runs never closes a default-open target
                     activated = True
             # arguments
@@ -455,6 +456,7 @@ def _eval_level(prog, provided, *, path, fail, responses, top_levels, stop) -> R
                 if me not in fallback_on_edge:
                     R.once.add(fid)
                 if fid in fail:
+                    failed_nodes.add(me)
                     R.failed.append(fid)
                     if R.fail_level is None or top_levels + (lvl,) < R.fail_level:
                         R.fail_level = top_levels + (lvl,)
